@@ -136,12 +136,38 @@ theorem idxOf_keys (fid : Nat) (recs : List (Nat × Rec)) (q : Bytes × Idx) (h 
     rw [hg] at hv
     cases hv
 
+/-! ### index entries up to the status byte
+
+`Open` rebuilds the active tree with every cached record marked Committed, `Commit` caches the record as it was
+written (only the last one of a transaction is marked): the reads use the entry's position and transaction id
+only, so the invariant compares trees up to the status byte of the cached record. -/
+
+def nrm (i : Idx) : Idx := { i with r := Reopen.committedRec i.r }
+def nmap (m : Assoc Idx) : Assoc Idx := m.map fun p => (p.1, nrm p.2)
+
+theorem aget_nmap (m : Assoc Idx) (k : Bytes) : aget? (nmap m) k = (aget? m k).map nrm := Reopen.aget_map nrm m k
+
+theorem nmap_upsert (m : Assoc Idx) (k : Bytes) (i : Idx) : nmap (upsert m k i) = upsert (nmap m) k (nrm i) :=
+  Reopen.upsert_map nrm m k i
+
+/-- what the reads need from an entry that equals `⟨r, fid, pos⟩` up to the status byte -/
+theorem nrm_eq {i : Idx} {r : Rec} {fid pos : Nat} (h : nrm i = nrm ⟨r, fid, pos⟩) :
+    i.fid = fid ∧ i.pos = pos ∧ i.r.txid = r.txid := by
+  unfold nrm at h
+  have h1 := congrArg Idx.fid h
+  have h2 := congrArg Idx.pos h
+  have h3 := congrArg (fun x => x.r.txid) h
+  exact ⟨h1, h2, h3⟩
+
+theorem aget_of_nmap_eq {a b : Assoc Idx} (h : nmap a = nmap b) (k : Bytes) : (aget? a k).map nrm = (aget? b k).map nrm := by
+  rw [← aget_nmap, ← aget_nmap, h]
+
 /-! ### the invariant between two commits (and, with `cur`, inside one) -/
 
 /-- a sealed segment and the file it was sealed from -/
 structure SegOk (g : Seg) (f : File) (cur : Option Nat) (reserved : List Nat) : Prop where
   fid : g.fid = f.fid
-  content : g.content = idxOf f.fid f.recs []
+  content : nmap g.content = nmap (idxOf f.fid f.recs [])
   bounds : ∀ q ∈ g.content, inRange q.1 g.first g.last = true
   tx : ∀ p ∈ f.recs, p.2.txid ∈ g.txids ∨ (some p.2.txid = cur ∧ g.fid ∈ reserved)
 
@@ -149,9 +175,14 @@ structure SInv (s : SState) (cur : Option Nat) (reserved : List Nat) : Prop wher
   /-- the files: the sealed ones in ascending id order, then the active one -/
   split : ∃ pre fa, s.files = pre ++ [fa] ∧ fa.fid = s.activeFid ∧ (∀ g ∈ pre, g.fid < s.activeFid) ∧
     All2 (fun g f => SegOk g f cur reserved) s.sealed pre ∧
-    s.active = idxOf s.activeFid fa.recs [] ∧
+    nmap s.active = nmap (idxOf s.activeFid fa.recs []) ∧
     (∀ p ∈ fa.recs, p.1 < s.writeOff) ∧
-    (∀ p ∈ fa.recs, p.2.txid ∈ s.activeTx ∨ some p.2.txid = cur)
+    (∀ p ∈ fa.recs, p.2.txid ∈ s.activeTx ∨ some p.2.txid = cur) ∧
+    -- what a reopen needs: no empty key, every transaction of the active file has its commit mark there, the
+    -- offsets ascend, the file is not torn
+    (∀ p ∈ fa.recs, p.2.key ≠ []) ∧
+    (∀ p ∈ fa.recs, (∃ q ∈ fa.recs, q.2.status = 1 ∧ q.2.txid = p.2.txid) ∨ some p.2.txid = cur) ∧
+    fa.recs.Pairwise (fun a b => a.1 < b.1) ∧ fa.torn = false
   wf : Hints.WellFormed s.files
   asc : s.sealed.Pairwise (fun a b => a.fid < b.fid)
 
@@ -182,40 +213,43 @@ theorem getOnDisk_spec (s : SState) (nk : Bytes) (now : Nat) (hwf : Hints.WellFo
     | cons hgf hrest =>
       rename_i f fs'
       simp only [getOnDisk, latestFile]
-      have hcont := aget_idxOf f.fid f.recs [] nk
-      rw [← hgf.content] at hcont
+      have hcont0 := aget_idxOf f.fid f.recs [] nk
+      have hcontN := aget_of_nmap_eq hgf.content nk
+      rw [hcont0] at hcontN
       cases hl : latestIn f.recs nk with
       | none =>
-        rw [hl] at hcont
-        simp only [aget?] at hcont
+        rw [hl] at hcontN
+        simp only [aget?, Option.map_none, Option.map_eq_none_iff] at hcontN
         have hrec := ih fs' hrest (fun x hx => hmem x (List.mem_cons_of_mem _ hx))
         by_cases hr : inRange nk g.first g.last = true
-        · simp only [hr, if_true, hcont]; exact hrec
+        · simp only [hr, if_true, hcontN]; exact hrec
         · simp only [hr]; exact hrec
       | some p =>
-        rw [hl] at hcont
-        simp only at hcont
+        rw [hl] at hcontN
+        simp only [Option.map_some] at hcontN
+        obtain ⟨i, hgi, hni⟩ := Option.map_eq_some_iff.mp hcontN
+        obtain ⟨_, hipos, _⟩ := nrm_eq hni
         obtain ⟨hpm, _⟩ := latestIn_mem hl
         -- the key is in the content, hence inside the segment's range
         have hin : inRange nk g.first g.last = true := by
           have : ∃ q ∈ g.content, q.1 = nk := by
-            generalize g.content = m at hcont
+            generalize g.content = m at hgi
             induction m with
-            | nil => simp [aget?] at hcont
+            | nil => simp [aget?] at hgi
             | cons a tl ih2 =>
               obtain ⟨k', v'⟩ := a
-              simp only [aget?] at hcont
+              simp only [aget?] at hgi
               by_cases hk : k' = nk
               · exact ⟨(k', v'), List.mem_cons_self .., hk⟩
-              · simp only [hk, if_false] at hcont
-                obtain ⟨q, hq, e⟩ := ih2 hcont
+              · simp only [hk, if_false] at hgi
+                obtain ⟨q, hq, e⟩ := ih2 hgi
                 exact ⟨q, List.mem_cons_of_mem _ hq, e⟩
           obtain ⟨q, hq, e⟩ := this
           rw [← e]; exact hgf.bounds q hq
-        have hread : readAt s.files s.seg g.fid p.1 = .ok (some p.2) := by
-          rw [hgf.fid]
+        have hread : readAt s.files s.seg g.fid i.pos = .ok (some p.2) := by
+          rw [hgf.fid, hipos]
           exact Hints.readAt_of_mem s.files s.seg f p.1 p.2 hwf (hmem f (List.mem_cons_self ..)) hpm
-        simp only [hin, if_true, hcont, hread]
+        simp only [hin, if_true, hgi, hread]
         have htx : p.2.txid ∈ g.txids := by
           rcases hgf.tx p hpm with h1 | ⟨h2, _⟩
           · exact h1
@@ -234,34 +268,37 @@ theorem get_spec (s : SState) (h : SInv s none []) (b k : Bytes) (now : Nat) :
     Sparse.get s b k now = match latestFile s.files.reverse (b ++ k) with
       | some r => judged r now
       | none => .err := by
-  obtain ⟨pre, fa, hfiles, hfid, hlt, hsegs, hact, hoff, htx⟩ := h.split
+  obtain ⟨pre, fa, hfiles, hfid, hlt, hsegs, hact, hoff, htx, _, _, _, _⟩ := h.split
   have hrev : s.files.reverse = fa :: pre.reverse := by rw [hfiles]; simp
   rw [hrev]
   simp only [latestFile]
-  have hcont := aget_idxOf s.activeFid fa.recs [] (b ++ k)
-  rw [← hact] at hcont
+  have hcont0 := aget_idxOf s.activeFid fa.recs [] (b ++ k)
+  have hcontN := aget_of_nmap_eq hact (b ++ k)
+  rw [hcont0] at hcontN
   unfold Sparse.get
   simp only
   cases hl : latestIn fa.recs (b ++ k) with
   | some p =>
-    rw [hl] at hcont
-    simp only at hcont
+    rw [hl] at hcontN
+    simp only [Option.map_some] at hcontN
+    obtain ⟨i, hgi, hni⟩ := Option.map_eq_some_iff.mp hcontN
+    obtain ⟨hifid, hipos, hitx⟩ := nrm_eq hni
     obtain ⟨hpm, _⟩ := latestIn_mem hl
-    have htxp : s.activeTx.contains p.2.txid = true := by
+    have htxp : s.activeTx.contains i.r.txid = true := by
+      rw [hitx]
       rcases htx p hpm with h1 | h2
       · simpa using h1
       · cases h2
-    have hread : readRec s ⟨p.2, s.activeFid, p.1⟩ = .ok (some p.2) := by
+    have hread : readRec s i = .ok (some p.2) := by
       unfold readRec
-      simp only
-      rw [← hfid]
+      rw [hifid, hipos, ← hfid]
       exact Hints.readAt_of_mem s.files s.seg fa p.1 p.2 h.wf (by rw [hfiles]; simp) hpm
-    simp only [hcont, htxp, if_true, hread]
+    simp only [hgi, htxp, if_true, hread]
     rfl
   | none =>
-    rw [hl] at hcont
-    simp only [aget?] at hcont
-    simp only [hcont]
+    rw [hl] at hcontN
+    simp only [aget?, Option.map_none, Option.map_eq_none_iff] at hcontN
+    simp only [hcontN]
     unfold segsDesc
     have hf2 : All2 (fun g f => SegOk g f none []) s.sealed.reverse pre.reverse := by
       exact All2.reverse hsegs
@@ -417,7 +454,7 @@ theorem rotate_inv (c c' : CommitSt) (tid : Nat) (h : SInv c.s (some tid) c.rese
   · simp [he] at hr
   · simp only [he, Bool.false_eq_true, if_false, Option.some.injEq] at hr
     subst hr
-    obtain ⟨pre, fa, hfiles, hfid, hlt, hsegs, hact, hoff, htx⟩ := h.split
+    obtain ⟨pre, fa, hfiles, hfid, hlt, hsegs, hact, hoff, htx, _, _, _, _⟩ := h.split
     have hens : fileEnsure c.s.files (c.s.activeFid + 1) = c.s.files ++ [{ fid := c.s.activeFid + 1, recs := [] }] := by
       apply Reopen.fileEnsure_new
       intro g hg
@@ -425,7 +462,8 @@ theorem rotate_inv (c c' : CommitSt) (tid : Nat) (h : SInv c.s (some tid) c.rese
       rcases List.mem_append.mp hg with e | e
       · have := hlt g e; omega
       · simp at e; subst e; omega
-    refine ⟨⟨⟨pre ++ [fa], { fid := c.s.activeFid + 1, recs := [] }, ?_, rfl, ?_, ?_, rfl, ?_, ?_⟩, ?_, ?_⟩, ?_, rfl⟩
+    refine ⟨⟨⟨pre ++ [fa], { fid := c.s.activeFid + 1, recs := [] }, ?_, rfl, ?_, ?_, rfl, ?_, ?_,
+      (by intro p hp; simp at hp), (by intro p hp; simp at hp), (by simp), rfl⟩, ?_, ?_⟩, ?_, rfl⟩
     · simp only; rw [hens, hfiles]
     · intro g hg
       simp only
@@ -570,7 +608,7 @@ theorem writeCore_inv (c1 : CommitSt) (tid : Nat) (r : Rec) (last : Bool)
     (writeCore c1 r last).reserved = c1.reserved ∧
     (if last then SInv (writeCore c1 r last).s none [] else SInv (writeCore c1 r last).s (some tid) c1.reserved) := by
   obtain ⟨f1, f2, f3, f4, f5, f6, f7, f8, f9⟩ := writeCore_fields c1 r last
-  obtain ⟨pre, fa, hfiles, hfid, hlt, hsegs, hact, hoff, htx⟩ := h.split
+  obtain ⟨pre, fa, hfiles, hfid, hlt, hsegs, hact, hoff, htx, hkeys, hmark, hsorted, htorn⟩ := h.split
   obtain ⟨m1, m2, m3, m4, m5⟩ := markLast_fields r last
   generalize hr1 : markLast r last = r1 at f1 f3 f6 f7 f8 m1 m2 m3 m4 m5
   generalize hs4 : (writeCore c1 r last).s = s4 at f1 f2 f3 f4 f6 f7 f8 f9
@@ -579,11 +617,27 @@ theorem writeCore_inv (c1 : CommitSt) (tid : Nat) (r : Rec) (last : Bool)
   have hfiles' : s4.files = pre ++ [fa'] := by
     rw [f1, hfiles, ← hfid]
     exact Reopen.fileAppend_last pre fa c1.s.writeOff r1 (by rw [hfid]; exact hlt)
-  have hactive' : s4.active = idxOf s4.activeFid fa'.recs [] := by
+  have hactive' : nmap s4.active = nmap (idxOf s4.activeFid fa'.recs []) := by
     rw [f6, f2]
-    show _ = idxOf c1.s.activeFid (fa.recs ++ [(c1.s.writeOff, r1)]) []
-    rw [idxOf_snoc, ← hact]
-    rfl
+    show _ = nmap (idxOf c1.s.activeFid (fa.recs ++ [(c1.s.writeOff, r1)]) [])
+    rw [idxOf_snoc]
+    unfold idxStep
+    by_cases hkv : (r1.ds == dsKV) = true
+    · simp only [hkv, if_true]; rw [nmap_upsert, nmap_upsert, hact]
+    · simp only [hkv]; exact hact
+  have hkeys' : ∀ p ∈ fa'.recs, p.2.key ≠ [] := by
+    intro p hp
+    rcases List.mem_append.mp hp with e | e
+    · exact hkeys p e
+    · simp at e; subst e; simp only; rw [m2]; exact hk
+  have hsorted' : fa'.recs.Pairwise (fun a b => a.1 < b.1) := by
+    show (fa.recs ++ [(c1.s.writeOff, r1)]).Pairwise _
+    rw [List.pairwise_append]
+    refine ⟨hsorted, by simp, ?_⟩
+    intro a ha b hb'
+    simp at hb'; subst hb'
+    exact hoff a ha
+  have htorn' : fa'.torn = false := htorn
   have hoff' : ∀ p ∈ fa'.recs, p.1 < s4.writeOff := by
     intro p hp
     rw [f3]
@@ -615,12 +669,18 @@ theorem writeCore_inv (c1 : CommitSt) (tid : Nat) (r : Rec) (last : Bool)
   cases last with
   | false =>
     simp only [Bool.false_eq_true, if_false] at f7 f8 ⊢
-    refine ⟨⟨pre, fa', hfiles', by rw [f2]; exact hfid, by rw [f2]; exact hlt, by rw [f8]; exact hsegs, hactive', hoff', ?_⟩, hwf', by rw [f8]; exact h.asc⟩
-    intro p hp
-    rw [f7]
-    rcases List.mem_append.mp hp with e | e
-    · exact htx p e
-    · simp at e; subst e; exact Or.inr (by simp only; rw [htid1])
+    refine ⟨⟨pre, fa', hfiles', by rw [f2]; exact hfid, by rw [f2]; exact hlt, by rw [f8]; exact hsegs, hactive', hoff', ?_, hkeys', ?_, hsorted', htorn'⟩, hwf', by rw [f8]; exact h.asc⟩
+    · intro p hp
+      rw [f7]
+      rcases List.mem_append.mp hp with e | e
+      · exact htx p e
+      · simp at e; subst e; exact Or.inr (by simp only; rw [htid1])
+    · intro p hp
+      rcases List.mem_append.mp hp with e | e
+      · rcases hmark p e with ⟨q, hq, h1, h2⟩ | h2
+        · exact Or.inl ⟨q, List.mem_append.mpr (Or.inl hq), h1, h2⟩
+        · exact Or.inr h2
+      · simp at e; subst e; exact Or.inr (by simp only; rw [htid1])
   | true =>
     simp only [if_true] at f7 f8 ⊢
     have hmemTx : ∀ x, x ∈ c1.s.activeTx ∨ x = tid → x ∈ s4.activeTx := by
@@ -635,7 +695,8 @@ theorem writeCore_inv (c1 : CommitSt) (tid : Nat) (r : Rec) (last : Bool)
         rcases hx with h1 | h2
         · exact List.mem_append.mpr (Or.inl h1)
         · subst h2; simp
-    refine ⟨⟨pre, fa', hfiles', by rw [f2]; exact hfid, by rw [f2]; exact hlt, ?_, hactive', hoff', ?_⟩, hwf', ?_⟩
+    have hst1 : r1.status = 1 := by rw [← hr1]; rfl
+    refine ⟨⟨pre, fa', hfiles', by rw [f2]; exact hfid, by rw [f2]; exact hlt, ?_, hactive', hoff', ?_, hkeys', ?_, hsorted', htorn'⟩, hwf', ?_⟩
     · rw [f8]
       apply All2.map_left _ hsegs
       intro g f hgf
@@ -669,6 +730,15 @@ theorem writeCore_inv (c1 : CommitSt) (tid : Nat) (r : Rec) (last : Bool)
         · exact Or.inl h1
         · exact Or.inr (by simpa using h2)
       · simp at e; subst e; exact Or.inr htid1
+    · intro p hp
+      left
+      have hlastmem : (c1.s.writeOff, r1) ∈ fa'.recs := List.mem_append.mpr (Or.inr (by simp))
+      rcases List.mem_append.mp hp with e | e
+      · rcases hmark p e with ⟨q, hq, h1, h2⟩ | h2
+        · exact ⟨q, List.mem_append.mpr (Or.inl hq), h1, h2⟩
+        · have : p.2.txid = tid := by simpa using h2
+          exact ⟨(c1.s.writeOff, r1), hlastmem, hst1, by simp only; rw [htid1, this]⟩
+      · simp at e; subst e; exact ⟨(c1.s.writeOff, r1), hlastmem, hst1, rfl⟩
     · rw [f8, List.pairwise_map]
       refine h.asc.imp ?_
       intro a b hab
@@ -740,13 +810,16 @@ theorem commitLoop_inv (tid : Nat) : ∀ (recs : List Rec) (c c' : CommitSt), re
 def Good (s : SState) : Prop := SInv s none [] ∧ ABounds s
 
 theorem sinv_weaken {s : SState} (h : SInv s none []) (tid : Nat) : SInv s (some tid) [] := by
-  obtain ⟨pre, fa, a1, a2, a3, a4, a5, a6, a7⟩ := h.split
-  refine ⟨⟨pre, fa, a1, a2, a3, ?_, a5, a6, fun p hp => ?_⟩, h.wf, h.asc⟩
+  obtain ⟨pre, fa, a1, a2, a3, a4, a5, a6, a7, a8, a9, a10, a11⟩ := h.split
+  refine ⟨⟨pre, fa, a1, a2, a3, ?_, a5, a6, fun p hp => ?_, a8, fun p hp => ?_, a10, a11⟩, h.wf, h.asc⟩
   · exact a4.imp (fun g f _ _ hgf => ⟨hgf.fid, hgf.content, hgf.bounds, fun p hp => by
       rcases hgf.tx p hp with h1 | ⟨h2, _⟩
       · exact Or.inl h1
       · cases h2⟩)
   · rcases a7 p hp with h1 | h2
+    · exact Or.inl h1
+    · cases h2
+  · rcases a9 p hp with h1 | h2
     · exact Or.inl h1
     · cases h2
 
@@ -776,14 +849,158 @@ theorem good_init (seg : Nat) : Good (Sparse.openDB seg [] [] []).1 := by
   rw [openDB_empty]
   constructor
   · constructor
-    · refine ⟨[], { fid := 0, recs := [] }, rfl, rfl, ?_, ?_, ?_, ?_, ?_⟩
+    · refine ⟨[], { fid := 0, recs := [] }, rfl, rfl, ?_, ?_, ?_, ?_, ?_, ?_, ?_, ?_, rfl⟩
       · intro g hg; cases hg
       · exact All2.nil
       · rfl
       · intro p hp; cases hp
       · intro p hp; cases hp
+      · intro p hp; cases hp
+      · intro p hp; cases hp
+      · exact List.Pairwise.nil
     · exact ⟨by simp, by intro f hf; simp at hf; subst hf; simp⟩
     · simp
   · exact ⟨(by intro q hq; cases hq), Or.inl rfl⟩
+
+/-! ### a clean reopen keeps the invariant -/
+
+theorem foldl_max_last : ∀ (l : List Nat) (x init : Nat), (∀ y ∈ l, y < x) → init ≤ x → (l ++ [x]).foldl max init = x := by
+  intro l
+  induction l with
+  | nil => intro x init _ hi; simp [List.foldl]; omega
+  | cons a rest ih =>
+    intro x init hl hi
+    simp only [List.cons_append, List.foldl_cons]
+    apply ih x (max init a) (fun y hy => hl y (List.mem_cons_of_mem _ hy))
+    have := hl a (List.mem_cons_self ..)
+    omega
+
+theorem nmap_idxOf_congr (fid : Nat) (L : List (Nat × Rec)) (m m' : Assoc Idx) (h : nmap m = nmap m') :
+    nmap (idxOf fid L m) = nmap (idxOf fid L m') := by
+  induction L generalizing m m' with
+  | nil => exact h
+  | cons x rest ih =>
+    simp only [idxOf, List.foldl_cons]
+    apply ih
+    unfold idxStep
+    by_cases hkv : (x.2.ds == dsKV) = true
+    · simp only [hkv, if_true]; rw [nmap_upsert, nmap_upsert, h]
+    · simp only [hkv]; exact h
+
+/-- the loop of `Open` that rebuilds the active tree from the records of committed transactions -/
+def openStep (ids : List Nat) (fid : Nat) (s : SState) (x : Nat × Rec) : SState :=
+  if ids.contains x.2.txid && x.2.ds == dsKV then treeInsert s (newKey x.2) ⟨{ x.2 with status := 1 }, fid, x.1⟩ else s
+
+theorem openFold_spec (ids : List Nat) (fid : Nat) : ∀ (L : List (Nat × Rec)) (t : SState),
+    (∀ x ∈ L, ids.contains x.2.txid = true) → (∀ x ∈ L, x.2.key ≠ []) → ABounds t →
+    nmap (L.foldl (openStep ids fid) t).active = nmap (idxOf fid L t.active) ∧ ABounds (L.foldl (openStep ids fid) t) ∧
+    (L.foldl (openStep ids fid) t).files = t.files ∧ (L.foldl (openStep ids fid) t).activeFid = t.activeFid ∧
+    (L.foldl (openStep ids fid) t).writeOff = t.writeOff ∧ (L.foldl (openStep ids fid) t).sealed = t.sealed ∧
+    (L.foldl (openStep ids fid) t).activeTx = t.activeTx := by
+  intro L
+  induction L with
+  | nil => intro t _ _ hb; exact ⟨rfl, hb, rfl, rfl, rfl, rfl, rfl⟩
+  | cons x rest ih =>
+    intro t hids hkeys hb
+    simp only [List.foldl_cons]
+    have hx := hids x (List.mem_cons_self ..)
+    have hstep : nmap (openStep ids fid t x).active = nmap (idxStep fid t.active x) ∧ ABounds (openStep ids fid t x) ∧
+        (openStep ids fid t x).files = t.files ∧ (openStep ids fid t x).activeFid = t.activeFid ∧
+        (openStep ids fid t x).writeOff = t.writeOff ∧ (openStep ids fid t x).sealed = t.sealed ∧
+        (openStep ids fid t x).activeTx = t.activeTx := by
+      unfold openStep idxStep
+      by_cases hkv : (x.2.ds == dsKV) = true
+      · simp only [hx, hkv, Bool.and_self, if_true]
+        refine ⟨?_, treeInsert_bounds _ _ _ hb (newKey_ne x.2 (hkeys x (List.mem_cons_self ..))), rfl, rfl, rfl, rfl, rfl⟩
+        simp only [treeInsert]
+        rw [nmap_upsert, nmap_upsert]
+        rfl
+      · simp only [hkv, Bool.and_false, Bool.false_eq_true, if_false]
+        exact ⟨trivial, hb, trivial, trivial, trivial, trivial, trivial⟩
+    obtain ⟨s1, s2, s3, s4, s5, s6, s7⟩ := hstep
+    obtain ⟨r1, r2, r3, r4, r5, r6, r7⟩ := ih (openStep ids fid t x) (fun y hy => hids y (List.mem_cons_of_mem _ hy))
+      (fun y hy => hkeys y (List.mem_cons_of_mem _ hy)) s2
+    refine ⟨?_, r2, by rw [r3, s3], by rw [r4, s4], by rw [r5, s5], by rw [r6, s6], by rw [r7, s7]⟩
+    rw [r1]
+    simp only [idxOf, List.foldl_cons]
+    exact nmap_idxOf_congr fid rest _ _ s1
+
+theorem lt_fileEnd (f : File) (h : f.recs.Pairwise (fun a b => a.1 < b.1)) : ∀ p ∈ f.recs, p.1 < fileEnd f := by
+  intro p hp
+  unfold fileEnd
+  cases hl : f.recs.getLast? with
+  | none =>
+    have : f.recs = [] := by simpa using hl
+    rw [this] at hp; cases hp
+  | some q =>
+    obtain ⟨o, r⟩ := q
+    simp only
+    obtain ⟨ys, hys⟩ := List.getLast?_eq_some_iff.mp hl
+    rw [hys] at hp h
+    rw [List.pairwise_append] at h
+    have := size_pos r
+    rcases List.mem_append.mp hp with e | e
+    · have := h.2.2 p e (o, r) (by simp); simp only at this; omega
+    · simp at e; subst e; simp only; omega
+
+theorem reopen_good (s : SState) (h : Good s) (seg' : Nat) : Good (Sparse.openDB seg' s.files s.sealed s.metas).1 := by
+  obtain ⟨hinv, hb⟩ := h
+  obtain ⟨pre, fa, hfiles, hfid, hlt, hsegs, hact, hoff, htx, hkeys, hmark, hsorted, htorn⟩ := hinv.split
+  have hmax : (s.files.map (·.fid)).foldl max 0 = fa.fid := by
+    rw [hfiles, List.map_append]
+    simp only [List.map_cons, List.map_nil]
+    apply foldl_max_last
+    · intro y hy
+      obtain ⟨g, hg, rfl⟩ := List.mem_map.mp hy
+      rw [hfid]; exact hlt g hg
+    · omega
+  have hany : s.files.any (·.fid == fa.fid) = true := by rw [hfiles]; simp
+  have hens : fileEnsure s.files fa.fid = s.files := by unfold fileEnsure; rw [hany]; rfl
+  have hget : fileGet? s.files fa.fid = some fa := by
+    unfold fileGet?
+    rw [hfiles, List.find?_append]
+    have : pre.find? (·.fid == fa.fid) = none := by
+      rw [List.find?_eq_none]
+      intro g hg
+      have := hlt g hg
+      simp only [beq_iff_eq]; omega
+    rw [this]; simp
+  have hmarked : ∀ x ∈ fa.recs, (((fa.recs.filter fun y => y.2.status == 1).map fun y => y.2.txid).contains x.2.txid) = true := by
+    intro x hx
+    rcases hmark x hx with ⟨q, hq, h1, h2⟩ | h2
+    · simp only [List.contains_iff_mem, List.mem_map, List.mem_filter]
+      exact ⟨q, ⟨hq, by simp [h1]⟩, h2⟩
+    · cases h2
+  -- unfold `Open`
+  have hopen : (Sparse.openDB seg' s.files s.sealed s.metas).1 =
+      fa.recs.foldl (openStep ((fa.recs.filter fun y => y.2.status == 1).map fun y => y.2.txid) fa.fid)
+        { seg := seg', files := s.files, activeFid := fa.fid, writeOff := fileEnd fa, actualSize := fileEnd fa,
+          sealed := s.sealed.filter (·.fid < fa.fid), metas := s.metas, opened := true,
+          activeTx := ((fa.recs.filter fun y => y.2.status == 1).map fun y => y.2.txid).eraseDups } := by
+    unfold Sparse.openDB
+    simp only [hmax, hens, hget, Option.getD_some, htorn, Bool.false_eq_true, if_false]
+    rfl
+  rw [hopen]
+  have hsealed : s.sealed.filter (·.fid < fa.fid) = s.sealed := by
+    rw [List.filter_eq_self]
+    intro g hg
+    obtain ⟨f, hf, hgf⟩ := hsegs.mem_left g hg
+    have := hlt f hf
+    simp only [decide_eq_true_eq]
+    rw [hgf.fid, hfid]; exact this
+  rw [hsealed]
+  obtain ⟨o1, o2, o3, o4, o5, o6, o7⟩ := openFold_spec _ fa.fid fa.recs
+    { seg := seg', files := s.files, activeFid := fa.fid, writeOff := fileEnd fa, actualSize := fileEnd fa,
+      sealed := s.sealed, metas := s.metas, opened := true,
+      activeTx := ((fa.recs.filter fun y => y.2.status == 1).map fun y => y.2.txid).eraseDups }
+    hmarked hkeys ⟨(by intro q hq; cases hq), Or.inl rfl⟩
+  refine ⟨⟨⟨pre, fa, by rw [o3]; exact hfiles, by rw [o4], by rw [o4, hfid]; exact hlt, by rw [o6]; exact hsegs, ?_, ?_, ?_, hkeys, hmark, hsorted, htorn⟩, by rw [o3]; exact hinv.wf, by rw [o6]; exact hinv.asc⟩, o2⟩
+  · rw [o1, o4]
+  · rw [o5]; exact lt_fileEnd fa hsorted
+  · intro p hp
+    left
+    rw [o7, List.mem_eraseDups]
+    have := hmarked p hp
+    simpa using this
 
 end NutsProofs.SparseGet
